@@ -87,8 +87,12 @@ def verify_minimiser(table, offsets, perturbations):
     scale = max([abs(c) for row in table.values() for c in row.values()]
                 + [abs(o) for o in offsets.values()] + [1.0])
     sums, mags = residual_sums(table, offsets)
+    # the solve is accurate relative to the size of the whole problem: a
+    # series whose own terms happen to cancel to ~0 (stored offsets are
+    # re-based to the reference level) still carries that absolute error
+    whole = sum(mags.values())
     for s in sids:
-        if abs(sums[s]) > 1e-9 * (mags[s] + 1.0):
+        if abs(sums[s]) > 1e-9 * (mags[s] + 1.0) + 1e-12 * whole:
             raise Violation(
                 'residuals-do-not-sum-to-zero',
                 'series {}: sum {!r} (magnitude {!r})'.format(
